@@ -17,7 +17,8 @@
     which `Orch.Kern.backTransform : List ρ → List ρ` cannot see; `computeWith` is `Orch.compute` with one extra state-dependent
     step `pre` in front of `Orch.sortRitz` (`computeWith_id`: with `pre = id` it IS `Orch.compute`), and `csBack` is that step:
     probe shift from `SimpleRandom(0)`, the two roots of the quadratic, root selection by the probe residuals, and the
-    conjugate-pair loop `pairLoop` (`m_ritz_val[i + 1] = conj(lambda); i++`).  The operator at the probe shift enters as an explicit
+    conjugate-pair loop `pairLoop` (`if (nu.imag() != 0) { m_ritz_val[i + 1] = conj(lambda); i++; }`: the pair test is on the
+    transformed Ritz value, repair of finding F14).  The operator at the probe shift enters as an explicit
     function (`probe`): the harness supplies `Re[(A - r I)^{-1}]` for every shift the solver installs.
   * theorem-facing pieces are separate pure functions: `shiftPasses` (single/double-shift schedule of `restart`), `pairLoop`,
     `csRoots`, `realShiftBack`.
@@ -45,25 +46,27 @@ open Lin
 
 /-- the `for (i = 0; i < nev; i++)` loop of `GenEigsComplexShiftSolver::sort_ritzpair` over the slots of `m_ritz_val`:
     `pick i nu` is the eigenvalue `lambdaj` chosen for slot `i` from the transformed value `nu = m_ritz_val[i]` (root selection),
-    `isPair lambda` is `abs(imag(lambda)) > eps`, `cj` complex conjugation, `re` the projection `Complex(real(lambda), 0)`.
-    First argument: fuel (`nev` suffices: the index grows by at least one per pass). -/
+    `isPair nu` is the pair test `nu.imag() != Scalar(0)` — decided on the TRANSFORMED value (repair of finding F14; before it the
+    test was `abs(imag(lambdaj)) > eps` on the selected root) —, `cj` complex conjugation, `re` the projection
+    `Complex(real(lambda), 0)`.  First argument: fuel (`nev` suffices: the index grows by at least one per pass). -/
 def pairLoop {ρ : Type} (pick : Nat → ρ → ρ) (isPair : ρ → Bool) (cj re : ρ → ρ) (nev : Nat) (dflt : ρ) :
     Nat → Nat → List ρ → List ρ
   | 0, _, v => v
   | fuel + 1, i, v =>
     if i < nev then
       let lam := pick i (v.getD i dflt)
-      if isPair lam then pairLoop pick isPair cj re nev dflt fuel (i + 2) ((v.set i lam).set (i + 1) (cj lam))
+      if isPair (v.getD i dflt) then pairLoop pick isPair cj re nev dflt fuel (i + 2) ((v.set i lam).set (i + 1) (cj lam))
       else pairLoop pick isPair cj re nev dflt fuel (i + 1) (v.set i (re lam))
     else v
 
-/-- the slots the loop body is executed for (the loop index at every evaluation of the body) -/
-def pairVisits {ρ : Type} (pick : Nat → ρ → ρ) (isPair : ρ → Bool) (nev : Nat) (dflt : ρ) (v : List ρ) : Nat → Nat → List Nat
+/-- the slots the loop body is executed for (the loop index at every evaluation of the body); it no longer depends on the root
+    selection -/
+def pairVisits {ρ : Type} (isPair : ρ → Bool) (nev : Nat) (dflt : ρ) (v : List ρ) : Nat → Nat → List Nat
   | 0, _ => []
   | fuel + 1, i =>
     if i < nev then
-      if isPair (pick i (v.getD i dflt)) then i :: pairVisits pick isPair nev dflt v fuel (i + 2)
-      else i :: pairVisits pick isPair nev dflt v fuel (i + 1)
+      if isPair (v.getD i dflt) then i :: pairVisits isPair nev dflt v fuel (i + 2)
+      else i :: pairVisits isPair nev dflt v fuel (i + 1)
     else []
 
 /-- `Orch.compute` with one extra, state-dependent step `pre` between the flag refresh and `sort_ritzpair` (the prologue of a
@@ -296,23 +299,21 @@ def csPick (probe : Vec α → Vec α) (n ncv : Nat) (sigmar sigmai shiftr : α)
   if Sc.lt err1 err2 then roots.1 else roots.2
 
 /-- the new `m_ritz_val` after the prologue of `GenEigsComplexShiftSolver::sort_ritzpair` -/
-def csBack (probe : Vec α → Vec α) (c : Orch.Cfg) (sigmar sigmai eps : α)
+def csBack (probe : Vec α → Vec α) (c : Orch.Cfg) (sigmar sigmai : α)
     (s : Orch.St (Arnoldi.State α) (Cx α) (Cx α) (Vec (Cx α))) : List (Cx α) :=
   let shiftr := probeShift sigmar
   pairLoop (csPick probe c.n c.ncv sigmar sigmai shiftr s.fac.V s.ritzVec)
-    (fun lam => Sc.gt (Sc.abs lam.2) eps) Sc.conj (fun lam => (lam.1, zero)) c.nev czero c.nev 0 s.ritzVal
+    (fun nu => Sc.ne nu.2 zero) Sc.conj (fun lam => (lam.1, zero)) c.nev czero c.nev 0 s.ritzVal
 
 /-- number of operator applications at the probe shift made by the prologue (two per visited slot; not counted in `m_nmatop`) -/
-def csProbeCount (probe : Vec α → Vec α) (c : Orch.Cfg) (sigmar sigmai eps : α)
-    (s : Orch.St (Arnoldi.State α) (Cx α) (Cx α) (Vec (Cx α))) : Nat :=
-  2 * (pairVisits (csPick probe c.n c.ncv sigmar sigmai (probeShift sigmar) s.fac.V s.ritzVec)
-    (fun lam => Sc.gt (Sc.abs lam.2) eps) c.nev czero s.ritzVal c.nev 0).length
+def csProbeCount (c : Orch.Cfg) (s : Orch.St (Arnoldi.State α) (Cx α) (Cx α) (Vec (Cx α))) : Nat :=
+  2 * (pairVisits (fun nu : Cx α => Sc.ne nu.2 zero) c.nev czero s.ritzVal c.nev 0).length
 
 /-- `GenEigsComplexShiftSolver::compute` -/
-def computeCS (op : Arnoldi.Op α) (probe : Vec α → Vec α) (c : Orch.Cfg) (eps23 sigmar sigmai eps : α)
+def computeCS (op : Arnoldi.Op α) (probe : Vec α → Vec α) (c : Orch.Cfg) (eps23 sigmar sigmai : α)
     (sel : Int) (maxit : Nat) (tol : α) (sorting : Int) (s : Orch.St (Arnoldi.State α) (Cx α) (Cx α) (Vec (Cx α))) :
     Orch.CompRes (Arnoldi.State α) (Cx α) (Cx α) (Vec (Cx α)) :=
-  computeWith (genKern op c eps23 id) c (fun st => { st with ritzVal := csBack probe c sigmar sigmai eps st }) sel maxit tol sorting s
+  computeWith (genKern op c eps23 id) c (fun st => { st with ritzVal := csBack probe c sigmar sigmai st }) sel maxit tol sorting s
 
 end
 end GenSolver
